@@ -22,7 +22,6 @@ var notApplicable = map[string]string{
 	"C32": "Monotonicity/containment of interpolated quantiles: numerical (DESIGN §6).",
 	"C34": "Floating-point boundary of a hash-ratio test (DESIGN §6).",
 	"C35": "Lexer/parser fidelity against an external encoder; generated lexers; no shape clause that is a necessary condition of fidelity (DESIGN §6).",
-	"C36": "Bucket de-cumulation and a state machine over token streams: value-level (DESIGN §6).",
 }
 
 func writeManifest() {
